@@ -286,7 +286,7 @@ def required_labels(tier):
 def _fuzz(tier):
     """Coverage-guided phase (atheris), thorough tier (or VERIF_FUZZ_RUNS=<n> in any tier)."""
     import os
-    runs = int(os.environ.get('VERIF_FUZZ_RUNS', '0' if tier == 'quick' else '320000'))
+    runs = int(os.environ.get('VERIF_FUZZ_RUNS', '0' if tier == 'quick' else '96000'))
     if not runs:
         return []
     from .. import fuzz
